@@ -222,7 +222,7 @@ verif/chart: {{ .Chart.Name }}
 {{- end -}}
 `
 
-func buildTemplates(slots []ResSlot, partials bool, notes string) []*chart.File {
+func buildTemplates(slots []ResSlot, partials bool, notes string, sepStyle ...map[string]string) []*chart.File {
 	var order []string
 	byFile := map[string][]ResSlot{}
 	for _, s := range slots {
@@ -238,7 +238,28 @@ func buildTemplates(slots []ResSlot, partials bool, notes string) []*chart.File 
 			docs = append(docs, RenderSlot(s, partials))
 		}
 		sep := "---\n"
-		files = append(files, &chart.File{Name: "templates/" + f, Data: []byte(strings.Join(docs, sep))})
+		text := ""
+		style := ""
+		if len(sepStyle) > 0 && sepStyle[0] != nil {
+			style = sepStyle[0][f]
+		}
+		switch style {
+		case "crlf": // a file written with Windows line endings throughout
+			for i := range docs {
+				docs[i] = strings.ReplaceAll(strings.ReplaceAll(docs[i], "\r\n", "\n"), "\n", "\r\n")
+			}
+			sep = "---\r\n"
+		case "comment":
+			sep = "--- # next document\n"
+		case "spaces":
+			sep = "---   \n"
+		case "doubled":
+			sep = "---\n---\n"
+		case "leading":
+			text = "---\n"
+		}
+		text += strings.Join(docs, sep)
+		files = append(files, &chart.File{Name: "templates/" + f, Data: []byte(text)})
 	}
 	if partials {
 		files = append(files, &chart.File{Name: "templates/_helpers.tpl", Data: []byte(helpersTpl)})
@@ -281,7 +302,7 @@ func BuildChart(cs *ChartSpec) *chart.Chart {
 	if ch.Values == nil {
 		ch.Values = map[string]interface{}{}
 	}
-	ch.Templates = buildTemplates(cs.Slots, cs.Partials, cs.Notes)
+	ch.Templates = buildTemplates(cs.Slots, cs.Partials, cs.Notes, cs.SepStyle)
 	if cs.Schema != "" {
 		ch.Schema = []byte(cs.Schema)
 	}
